@@ -1,3 +1,4 @@
+import TinysetModel.Proofs.Fns
 import TinysetModel.Proofs.Plain
 import TinysetModel.Proofs.Consts
 import TinysetModel.Proofs.Refine
@@ -201,6 +202,18 @@ theorem run_refines_from_checked_u64 {D : Type} (g : Rng D) (fuel : Nat) (ops : 
       (∀ x, x ∈ elems cfg64 r' ↔ x ∈ (specRun (elems cfg64 r) ops).1) :=
   have wf := wf_of_check cfg64 r hc.1 hc.2
   run_refines cfg64_ok g fuel ops hops wf (elems cfg64 r) (absOK_of_wf cfg64_ok wf).nodup (fun _ => Iff.rfl) h
+
+/-! ### the helper functions the model transliterates are the ones in the current source
+(`Generated/Fns.lean`: translated from `src/setu64.rs` on every run by `tools/gen_fns.py`) -/
+
+/-- `log_2`, `compute_array_bits` (its `while` loop never iterates), `split_u64`, `p_poverty` of the current
+`setu64.rs` are the functions the model uses, for every `u64` argument -/
+theorem helpers_are_the_source_u64 :
+    (∀ x, x < 2 ^ 64 → Gen.log_2_64 x = TinyC.log2 x) ∧
+    (∀ mx, mx < 2 ^ 64 → Gen.compute_array_bits_64 mx = cfg64.cab mx) ∧
+    (∀ x bits, 0 < bits → Gen.split_64 x bits = (x / bits, x % bits)) ∧
+    (∀ k idx n, Gen.p_poverty_64 k idx n = RH.pov k idx n) :=
+  ⟨log_2_64_eq, compute_array_bits_64_eq, split_64_eq, p_poverty_64_eq⟩
 
 end C01
 
